@@ -118,6 +118,88 @@ void binary(char const* desc, int mode /*0: components in [-12,12] exhaustively,
     t.emit();
 }
 
+// fractions of different component types: fraction<N1,D1> op fraction<N2,D2>.  Domain: every operand of every product / sum the
+// operators form is representable in the C++ type of that product / sum, and so is its exact value (no wrap, no sign conversion).
+template<class N1, class D1, class N2, class D2>
+void binary_mixed(char const* desc)
+{
+    if (!kernel_selected(desc)) return;
+    using FA = cnl::fraction<N1, D1>;
+    using FB = cnl::fraction<N2, D2>;
+    Tally t(desc);
+    Rng rng(mix(env_seed(), hash_str(desc)));
+    auto thin = [&](auto tag, size_t keep) {
+        using T = decltype(tag);
+        size_t nd;
+        auto cs = comps<T>(rng, false, nd);
+        std::vector<T> k;
+        for (size_t i = 0; i < cs.size(); ++i)
+            if (i < 2 || i + 2 >= nd && i < nd || (X::of(cs[i]).mag128() <= 3) || (i * 2654435761u + (unsigned)env_seed()) % cs.size() < keep) k.push_back(cs[i]);
+        for (long v : {7L, 3L, 1000L, 7000000001L, 2147483648L, 4294967295L, 65536L, -65537L, 46341L, 3037000500L})
+            if (X::from_i(v) >= xmin<T>() && X::from_i(v) <= xmax<T>()) k.push_back((T)v);
+        return k;
+    };
+    auto an_s = thin(N1{}, 10), bn_s = thin(N2{}, 10);
+    auto ad_s = thin(D1{}, 6), bd_s = thin(D2{}, 6);
+    using P1 = decltype(N1{} * D2{});   // lhs.numerator * rhs.denominator
+    using P2 = decltype(N2{} * D1{});   // rhs.numerator * lhs.denominator
+    using P3 = decltype(D1{} * D2{});
+    using P4 = decltype(N1{} * N2{});
+    using S = decltype(P1{} + P2{});
+    auto both_fit = [](auto tag, X const& a, X const& b, X const& r) {
+        using T = decltype(tag);
+        return fits<T>(a) && fits<T>(b) && fits<T>(r);
+    };
+    for (N1 an : an_s)
+        for (D1 ad : ad_s)
+            for (N2 bn : bn_s)
+                for (D2 bd : bd_s) {
+                    if (t.closed) break;
+                    if (ad == 0 || bd == 0) { ++t.ood; continue; }
+                    X xan = X::of(an), xad = X::of(ad), xbn = X::of(bn), xbd = X::of(bd);
+                    X p1 = xan * xbd, p2 = xbn * xad, p3 = xad * xbd, p4 = xan * xbn, p5 = xad * xbn;
+                    bool dom = both_fit(P1{}, xan, xbd, p1) && both_fit(P2{}, xbn, xad, p2) && both_fit(P3{}, xad, xbd, p3) && both_fit(P4{}, xan, xbn, p4) && both_fit(P2{}, xad, xbn, p5)
+                            && fits<S>(p1) && fits<S>(p2) && fits<S>(p1 + p2) && fits<S>(p1 - p2) && fits<S>(p2 - p1);
+                    if (!dom) { ++t.ood; continue; }
+                    Q a{xan, xad}, b{xbn, xbd};
+                    Q sum{p1 + p2, p3}, dif{p1 - p2, p3}, pro{p4, p3}, quo{p1, p5};
+                    int c = qcmp(a, b);
+                    std::string bad;
+                    Outcome o = guarded([&] {
+                        FA fa{an, ad};
+                        FB fb{bn, bd};
+                        auto chk = [&](auto const& r, Q const& want, char const* nm) {
+                            Q g{X::of(r.numerator), X::of(r.denominator)};
+                            if (g.d.zero() || qcmp(g, want) != 0) { if (bad.empty()) bad = nm; }
+                        };
+                        chk(fa + fb, sum, "+");
+                        chk(fa - fb, dif, "-");
+                        chk(fa * fb, pro, "*");
+                        if (bn != 0) chk(fa / fb, quo, "/");
+                        if ((fa == fb) != (c == 0)) { if (bad.empty()) bad = "=="; }
+                        if ((fa != fb) != (c != 0)) { if (bad.empty()) bad = "!="; }
+                        if ((fa < fb) != (c < 0)) { if (bad.empty()) bad = "<"; }
+                        if ((fa > fb) != (c > 0)) { if (bad.empty()) bad = ">"; }
+                        if ((fa <= fb) != (c <= 0)) { if (bad.empty()) bad = "<="; }
+                        if ((fa >= fb) != (c >= 0)) { if (bad.empty()) bad = ">="; }
+                        // and the other way round
+                        if ((fb < fa) != (c > 0)) { if (bad.empty()) bad = "<(swapped)"; }
+                        if ((fb >= fa) != (c <= 0)) { if (bad.empty()) bad = ">=(swapped)"; }
+                        chk(fb - fa, Q{p2 - p1, p3}, "-(swapped)");
+                    });
+                    bool nt = ad < 0 || bd < 0 || c == 0 || an == 0 || bn == 0 || p1.mag128() > 0x7fffffff || p2.mag128() > 0x7fffffff;
+                    if (ad < 0 || bd < 0) t.classes[(ad < 0) != (bd < 0) ? "one_negative_denominator" : "both_negative_denominators"]++;
+                    if (p1.mag128() > 0xffffffffull || p2.mag128() > 0xffffffffull) t.classes["cross_product_beyond_32_bits"]++;
+                    auto in = [&] { return istr(an) + "/" + istr(ad) + " , " + istr(bn) + "/" + istr(bd); };
+                    if (o.kind == VALUE && bad.empty()) {
+                        t.held(o, nt);
+                        t.sample(nt, in, [&] { return std::string("exact rational results; order ") + (c < 0 ? "<" : c > 0 ? ">" : "=="); }, [&] { return std::string("same"); });
+                    } else
+                        t.violation(o.kind == VALUE ? "wrong:" + bad : kind_name(o.kind), o, in(), std::string("order ") + (c < 0 ? "<" : c > 0 ? ">" : "=="), outcome_str(o, bad), nt);
+                }
+    t.emit();
+}
+
 // unary: reduce, canonical, hash grouping, conversion to floating point
 template<class T>
 void unary(char const* desc, int range /*0 => all 8-bit components*/)
@@ -212,6 +294,16 @@ void fromfloat(char const* desc, int kid, int route /*0 fraction<T>(x), 1 make_f
     for (int q : {10000, 9973, 12345, 65536, 1000000}) { xs.push_back((F)(1.0L / q)); xs.push_back((F)(3.0L / q)); }
     for (int i = 0; i < 8; ++i) { F f = (F)mx; for (int j = 0; j < i; ++j) f = std::nextafter(f, (F)0); xs.push_back(f); xs.push_back(-f); xs.push_back(f / 2); xs.push_back((F)(mx / 3) - i); }
     for (int e : {-60, -40, -30, -20}) { xs.push_back((F)ldexpl(1.0L, e)); xs.push_back((F)ldexpl(0xd.6p0L, e)); }
+    // values whose natural numerator sits on the component limit: (max + d) / q for small and large q, and 1 + 1/(max + d)
+    for (int d = -2; d <= 2; ++d) {
+        for (long q : {2L, 3L, 7L, 15L, 17L, 23L, 100L, 1021L, 65537L}) {
+            if ((long double)q >= mx / 4) continue;
+            xs.push_back((F)((mx + d) / q));
+            if (d % 2 == 0) xs.push_back((F)(-(mx + d) / q));
+        }
+        xs.push_back((F)(1.0L + 1.0L / (mx + d)));
+        xs.push_back((F)(3.0L + 2.0L / (mx + d)));
+    }
     // large non-dyadic values (integer part up to max/2, decimal / thirds fractions): the search is stopped by the numerator limit
     for (long double scale = 2; scale < mx / 2; scale *= 3)
         for (long double r : {1.0L / 3, 0.004L, 0.1L, 0.7L, 0.0972L, 0.5218L, 0.875L + 1.0L / 4096}) {
